@@ -181,6 +181,8 @@ structure World where
   queue : List Nat := []          -- undelivered calls in submission order (the fake's `pending`)
   down : List Addr := []          -- unreachable servers
   clients : List Client := []
+  stopped : List Addr := []       -- servers whose run loop executed `_shutdown_server` (`Server.Stop()`, `_server = None`)
+  noloop : List Addr := []        -- servers restarted by `CourierServer.start()` after a stop: transport up, NO run loop
 
 def World.callSt (w : World) (i : Nat) : CallSt := (w.calls[i]?.map (·.st)).getD .queued
 
@@ -253,7 +255,14 @@ def cancelSt : CallSt → CallSt
   | .queued | .hung => .cancelled
   | s => s
 
-/-- Deliver call `id` now (what `fakecourier` does in manual mode; the assumed courier contract). -/
+/-- Deliver call `id` now (what `fakecourier` does in manual mode; the assumed courier contract).
+
+Server life-cycle (`courier_server.py:139–158, 259–268, 270–314`): a delivered `shutdown` runs the handler
+`_request_shutdown`; the server's run loop (`run_until_shutdown`) then executes `_shutdown_server` = `Server.Stop()` —
+the address becomes unreachable (`stopped`).  A server that was *restarted* after such a stop (`Ev.revive`,
+`CourierServer.start()`: `build_server()` + `Start()`, but `self._thread` is still the old, finished thread, so no new
+run loop is started — lines 304–310) answers the `shutdown` call and stays reachable: nobody is left to call
+`Server.Stop()` (`noloop`). -/
 def World.deliverCall (w : World) (id : Nat) (fail : Bool) : World :=
   match w.calls[id]? with
   | none => w
@@ -269,7 +278,9 @@ def World.deliverCall (w : World) (id : Nat) (fail : Bool) : World :=
       match c.meth with
       | .heartbeat s al => setSt { w with reg := run w.reg (heartbeatEvents w.now s al) } .ok
       | .plain => setSt w .ok
-      | .shutdown => setSt { w with down := c.addr :: w.down } .ok
+      | .shutdown =>
+        if w.noloop.contains c.addr then setSt w .ok
+        else setSt { w with down := c.addr :: w.down, stopped := c.addr :: w.stopped } .ok
 
 /-- One event; the Boolean is the observed return value of `is_alive` (false for other events). -/
 def World.step (w : World) : Ev → World × Bool
@@ -298,7 +309,12 @@ def World.step (w : World) : Ev → World × Bool
       let id := q.getD j 0
       ({ w with queue := q.eraseIdx j }.deliverCall id fail, false)
   | .kill a => ({ w with down := a :: w.down }, false)
-  | .revive a => ({ w with down := w.down.filter (· != a) }, false)
+  | .revive a =>
+    -- the harness' `restart`: `if not srv.has_started: srv.start()` (a stopped server is rebuilt and started, without
+    -- a run loop) and the transport makes the address reachable again
+    if w.stopped.contains a then
+      ({ w with down := w.down.filter (· != a), stopped := w.stopped.filter (· != a), noloop := a :: w.noloop }, false)
+    else ({ w with down := w.down.filter (· != a) }, false)
   | .shutdown i =>
     match w.clients[i]? with
     | none => (w, false)
